@@ -178,3 +178,59 @@ Example C10_example :
   verify (pr_prog (parse_whole (bs "input") (bs "var x = 1 and 2 or 3 def b { f = x and x } print x"))) = true.
 Proof. vm_compute. reflexivity. Qed.
 """)
+
+PROPS["C17"] = ("""C17: The parser accepts exactly the grammar and reports what it rejects.
+
+   Proved here: a parse ends in an error exactly when a diagnostic was logged (C17_error_iff_log, for every
+   token list whatever its shape), the token stream always ends in tEOF or in tERR,tFAIL after which the
+   lexer emits nothing (C17_lexer_shape), an accepted parse has consumed the input up to tEOF
+   (C17_ok_reaches_eof: a lexical failure ends the parse with an error).  The grammar itself is
+   Spec/Syntax.v (`ast_program`); "accepted iff derivable, and then the code is the code generator's" is
+   theorem T2, which the check tests on every generated sentence and mutation (suite t2check) and whose Coq
+   proof is in progress; C17_resync (a later faulty statement still gets its own diagnostic) is validated by
+   the differential run only.""",
+"""From BCL Require Import Model.Api Proofs.LineCalcProofs Proofs.LexerProofs Proofs.ParserInvProofs.
+Open Scope N_scope.""",
+[("C17_error_iff_log", "ParserInvProofs", "C17_error_iff_log", ""),
+ ("C17_ok_iff_no_diags", "ParserInvProofs", "C17_ok_iff_no_diags", "acceptance writes no diagnostic; every rejection writes at least one"),
+ ("C17_lexer_shape", "ParserInvProofs", "lex_tokens_shape", ""),
+ ("C17_lexer_terminates", "ParserInvProofs", "lex_fuel_enough", "the lexer never stops for lack of fuel: its last token is tEOF or tFAIL"),
+ ("C17_ok_reaches_eof", "ParserInvProofs", "parse_ok_reaches_eof", ""),
+ ("C17_diag_at_token", "ParserInvProofs", "diag_pos_is_token_pos", "every diagnostic is attached to a token of the input"),
+],
+"""
+Example C17_example :
+  pr_ok (parse_whole (bs "f") (bs "var x = 1 def b { y = x; z = (y = 2) } print x; bind b -> struct")) = true
+  /\ length (pr_diags (parse_whole (bs "f") (bs "print 1 +" ++ [10] ++ bs "print *" ++ [10]))) = 2%nat
+  /\ pr_ok (parse_whole (bs "f") (bs "print (1 = 2)")) = false.
+Proof. vm_compute. repeat split; reflexivity. Qed.
+""")
+
+PROPS["C06"] = ("""C06: Every input ends in a result or an error, never a crash or a hang.
+
+   In the model every Go panic site is an explicit constructor and every loop runs on fuel, so "never
+   panics, never hangs" is the unreachability of `Panic _`, `VPanic _` (other than the excluded repetition
+   case) and of fuel exhaustion.  Proved: the lexer always terminates within its fuel on every byte
+   sequence and every chunking (C06_lexer_total); code accepted by the bytecode verifier runs to RET, to a
+   documented runtime error or to the excluded case, within the fuel the API supplies (C06_vm_total);
+   LoadProg of any truncated dump is an error, never a panic (C13); Bind never panics (C15).  Validated by
+   the differential run only: that the parser's fuel is never exhausted (the model reports `oof`, which
+   has never been observed), and that every compiled program passes the verifier (it is checked on every
+   program the real compiler produces).  Partial: Go stack exhaustion and allocator failure are outside
+   the model; the property excludes them.""",
+"""From BCL Require Import Model.Api Model.Verify Proofs.LineCalcProofs Proofs.LexerProofs Proofs.ParserInvProofs Proofs.OptionsProofs Proofs.VerifyProofs.
+Open Scope N_scope.""",
+[("C06_lexer_total", "ParserInvProofs", "lex_fuel_enough", ""),
+ ("C06_lexer_shape", "ParserInvProofs", "lex_tokens_shape", ""),
+ ("C06_vm_total", "VerifyProofs", "C10_execute", ""),
+ ("C06_vm_no_panic", "VerifyProofs", "C10_check_sound", ""),
+ ("C06_error_reported", "ParserInvProofs", "C17_error_iff_log", "malformed input is an error with a diagnostic, not a silent acceptance"),
+],
+"""
+(* the literals and limits that used to panic are errors in the model (and, by the differential run, in the code) *)
+Example C06_example :
+  map (fun src => pr_ok (parse_whole (bs "f") src)) [bs "print 08"; bs "print 0x"; bs "print 1e999"; bs "print " ++ [34; 92; 113; 34]; bs "print 9223372036854775808"]
+  = [false; false; false; false; false]
+  /\ match snd (interpret (bs "f") (bs "print ""ab"" * -1") false false false) with IRun _ rr => rr_res rr = VErr 15 (bs "MUL: negative repeat count") | _ => False end.
+Proof. vm_compute. split; reflexivity. Qed.
+""")
